@@ -135,14 +135,31 @@ fn fe_str(cfg: &TransformConfig, input: &[u8]) -> String {
         Err(e) => format!("ERR\t\t{}", fe_err(&e)),
     }
 }
-/// requests `kind:cfg:input` (kind s = transform_str, m = transform_stream) run from `n` threads at once
+/// transform_file between two files of this request's own (input written first, output read back afterwards)
+fn fe_file(cfg: &TransformConfig, input: &[u8], idx: usize) -> String {
+    let dir = std::env::temp_dir();
+    let base = format!("svgdx-verif-{}-{}", std::process::id(), idx);
+    let (pin, pout) = (dir.join(format!("{base}.in")), dir.join(format!("{base}.out")));
+    let _ = std::fs::write(&pin, input);
+    let _ = std::fs::remove_file(&pout);
+    let r = svgdx::transform_file(pin.to_str().unwrap(), pout.to_str().unwrap(), cfg);
+    let out = std::fs::read(&pout).ok();
+    let _ = std::fs::remove_file(&pin);
+    let _ = std::fs::remove_file(&pout);
+    match (r, out) {
+        (Ok(()), Some(o)) => format!("OK\t{}", hex(&o[..])),
+        (Ok(()), None) => "ERR\t\tOK-without-output-file".to_owned(),
+        (Err(e), _) => format!("ERR\t\t{}", fe_err(&e)),
+    }
+}
+/// requests `kind:cfg:input` (kind s = transform_str, m = transform_stream, f = transform_file) run from `n` threads at once
 fn fe_conc(n: usize, reqs: &str) -> String {
-    let reqs: Vec<(bool, TransformConfig, Vec<u8>)> = reqs
+    let reqs: Vec<(char, TransformConfig, Vec<u8>)> = reqs
         .split(',')
         .filter(|x| !x.is_empty())
         .map(|r| {
             let p: Vec<&str> = r.split(':').collect();
-            (p[0] == "s", parse_cfg(p[1]), unhex(p[2]))
+            (p[0].chars().next().unwrap_or('s'), parse_cfg(p[1]), unhex(p[2]))
         })
         .collect();
     let reqs = std::sync::Arc::new(reqs);
@@ -162,13 +179,11 @@ fn fe_conc(n: usize, reqs: &str) -> String {
                         if i >= reqs.len() {
                             break;
                         }
-                        let (is_str, cfg, input) = &reqs[i];
-                        let r = panic::catch_unwind(|| {
-                            if *is_str {
-                                fe_str(cfg, input)
-                            } else {
-                                fe_stream(cfg, input)
-                            }
+                        let (kind, cfg, input) = &reqs[i];
+                        let r = panic::catch_unwind(|| match *kind {
+                            's' => fe_str(cfg, input),
+                            'f' => fe_file(cfg, input, i),
+                            _ => fe_stream(cfg, input),
                         })
                         .unwrap_or_else(|_| "PANIC".to_owned());
                         got.push((i, r));
